@@ -1027,9 +1027,9 @@ func prepareRepo(r *lib.Rng, base string, idx int, spec *e2e.Spec) (*repoResult,
 	var refsWG sync.WaitGroup
 	for name, s := range map[string]*e2e.Spec{"1": spec, "2": spec2} {
 		refsWG.Add(1)
-		go func(name string, s *e2e.Spec) {
+		cl := repo.CleanCopy(base, "clean"+name, s) // before repo.Plz is pointed at the strace wrapper
+		go func(name string, s *e2e.Spec, cl *e2e.Repo) {
 			defer refsWG.Done()
-			cl := repo.CleanCopy(base, "clean"+name, s)
 			res := cl.Run(120*time.Second, append([]string{"build"}, labels...)...)
 			ref := &cleanRef{Outputs: e2e.TargetOutputs(cl, s, labels), Obs: map[string]*Obs{}, Exit: res.Exit}
 			for _, ti := range tis {
@@ -1042,7 +1042,7 @@ func prepareRepo(r *lib.Rng, base string, idx int, spec *e2e.Spec) (*repoResult,
 			refs[name] = ref
 			refsMu.Unlock()
 			os.RemoveAll(cl.Dir)
-		}(name, s)
+		}(name, s, cl)
 	}
 	rr.nplz += 2
 
@@ -1056,6 +1056,10 @@ func prepareRepo(r *lib.Rng, base string, idx int, spec *e2e.Spec) (*repoResult,
 			steps, started := traceSteps(logPath, repo.Dir, ti, ids, cur)
 			if !started || cur == nil {
 				continue
+			}
+			if dbg := os.Getenv("C32_DEBUG"); dbg != "" && !strings.Contains(strings.Join(steps, " "), "WClose") {
+				d, _ := os.ReadFile(logPath)
+				os.WriteFile(filepath.Join(dbg, fmt.Sprintf("trace-%d-%s.log", idx, tag)), d, 0o644)
 			}
 			term := lib.App("CTrace", ti.coqTarget(), lib.StrList(ti.DirOuts), lib.List(newIDs(ti, ref.Obs[ti.Label])), cur.coq(), before[ti.Label].coq(), lib.List(steps))
 			js := map[string]any{"kind": "trace", "repo": idx, "build": tag, "label": ti.Label, "spec": s, "before": before[ti.Label], "steps": steps}
